@@ -173,6 +173,8 @@ fn decode_subscribe_packet(src: &mut Bytes) -> Result<Packet, DecodeError> {
         let qos = (src.get_u8() & 0b0000_0011).try_into()?;
         topic_filters.push((topic, qos));
     }
+    // [MQTT-3.8.3-3]
+    ensure!(!topic_filters.is_empty(), DecodeError::InvalidLength);
 
     Ok(Packet::Subscribe { packet_id, topic_filters })
 }
@@ -196,6 +198,8 @@ fn decode_unsubscribe_packet(src: &mut Bytes) -> Result<Packet, DecodeError> {
     while src.remaining() > 0 {
         topic_filters.push(ByteString::decode(src)?);
     }
+    // [MQTT-3.10.3-2]
+    ensure!(!topic_filters.is_empty(), DecodeError::InvalidLength);
     Ok(Packet::Unsubscribe { packet_id, topic_filters })
 }
 
